@@ -30,6 +30,15 @@ from ..core.types import Capability
 MAX_EXPRESSION_LENGTH = 10000  # Characters
 MAX_AST_DEPTH = 50  # Nesting levels
 
+def _reject_repeated_keywords(tree: ast.AST) -> None:
+    """Python's compiler refuses ``f(a=1, a=2)`` anywhere in an expression; ``ast.parse`` alone lets it through."""
+    for node in ast.walk(tree):
+        if isinstance(node, ast.Call):
+            names = [kw.arg for kw in node.keywords if kw.arg is not None]
+            if len(names) != len(set(names)):
+                raise SyntaxError("keyword argument repeated")
+
+
 class _LowercaseBooleans(ast.NodeTransformer):
     """Rewrite the names ``true`` / ``false`` into boolean constants."""
 
@@ -448,6 +457,7 @@ class Mitochondria:
         Fast but limited - like real glycolysis in the cytoplasm.
         """
         tree = ast.parse(expression, mode='eval')
+        _reject_repeated_keywords(tree)
         return self._compute_node(tree.body)
 
     def _krebs_cycle(self, expression: str) -> bool:
@@ -458,6 +468,7 @@ class Mitochondria:
         the mitochondrial matrix.
         """
         tree = ast.parse(expression, mode='eval')
+        _reject_repeated_keywords(tree)
         # Accept the bare names true/false as boolean literals (True/False already parse
         # as constants); rewriting the tree keeps the contents of string literals intact
         tree = _LowercaseBooleans().visit(tree)
